@@ -16,6 +16,10 @@ def ofVis (v : Visible) : DB :=
 
 def abs (db : DB) : Spec := ⟨vis db, staged db⟩
 
+/-- can `PendingBatchSnapshot` be loaded: all orders of the staged snapshot still exist in the main bucket -/
+def readable (v : Visible) (st : Staged) : Bool :=
+  (keys st.snap.orders).all (fun n => (lookup n v.orders).isSome)
+
 /-- the reconnect rule in words: discard iff the auctioneer finalised ANOTHER transaction (and the funding
 artifacts of the staged one could be removed) -/
 def discards (st : Staged) (rpc : Rpc) (removeOk : Bool) : Bool :=
@@ -42,17 +46,34 @@ def Spec.step (s : Spec) : Op → Spec
     | none => s
   | .spend =>
     match s.staged with
-    | some st => ⟨applyStaged st s.vis, none⟩
+    | some st => if readable s.vis st then ⟨applyStaged st s.vis, none⟩ else s
     | none => s
   | .discard => { s with staged := none }
   | .reopen => s
   | .reconnect rpc rm =>
     match s.staged with
-    | some st => if discards st rpc rm then { s with staged := none } else s
+    | some st => if readable s.vis st && discards st rpc rm then { s with staged := none } else s
     | none => s
+  | .accountSpend k w tx h =>
+    -- = the spend clause (multi-sig only) followed by the direct account update that closes the account
+    match lookup k s.vis.accounts with
+    | none => s
+    | some _ =>
+      match w with
+      | .unknown => s
+      | .expiry => { s with vis := C06.vis (C06.step (ofVis s.vis) (.updateAccount k (closeMods tx h))).1 }
+      | .multiSig =>
+        match s.staged with
+        | some st =>
+          if readable s.vis st then
+            let s1 : Spec := ⟨applyStaged st s.vis, none⟩
+            { s1 with vis := C06.vis (C06.step (ofVis s1.vis) (.updateAccount k (closeMods tx h))).1 }
+          else s      -- loading the staged batch fails: the handler returns the error
+        | none => { s with vis := C06.vis (C06.step (ofVis s.vis) (.updateAccount k (closeMods tx h))).1 }
   | .addAccount k a => { s with vis := C06.vis (C06.step (ofVis s.vis) (.addAccount k a)).1 }
   | .submitOrder n o => { s with vis := C06.vis (C06.step (ofVis s.vis) (.submitOrder n o)).1 }
   | .updateOrder n m => { s with vis := C06.vis (C06.step (ofVis s.vis) (.updateOrder n m)).1 }
+  | .deleteOrder n => { s with vis := C06.vis (C06.step (ofVis s.vis) (.deleteOrder n)).1 }
   | .updateOrders ns ms => { s with vis := C06.vis (C06.step (ofVis s.vis) (.updateOrders ns ms)).1 }
   | .updateAccount k m => { s with vis := C06.vis (C06.step (ofVis s.vis) (.updateAccount k m)).1 }
 
@@ -63,8 +84,8 @@ def Spec.run (s : Spec) : List Op → Spec
 /-! ### helpers -/
 
 theorem coh_direct {db : DB} (h : Coh db) {A' : List (Key × Acct)} {O' : List (Key × Ord)}
-    (E' : List (Key × Evt)) (hA : (keys A').Nodup) (hO : (keys O').Nodup) :
-    Coh { db with accounts := A', orders := O', events := E' } :=
+    (E' : List (Key × Evt)) (hA : (keys A').Nodup) (hO : (keys O').Nodup) (N' : List Key := db.noRefs) :
+    Coh { db with accounts := A', orders := O', events := E', noRefs := N' } :=
   ⟨hA, hO, h.pend, h.idx⟩
 
 theorem updateOrdersLoop_nodup {l : List (Key × List OMod)} {os : List (Key × Ord)} {ev os' ev'}
@@ -83,7 +104,8 @@ theorem updateOrdersTx_eq (ns : List Key) (ms : List (List OMod)) (db : DB) :
     updateOrdersTx ns ms db =
       match updateOrdersLoop (ns.zip ms) db.orders [] with
       | .error e => .error e
-      | .ok (os, es) => .ok { db with orders := os, events := db.events ++ es } := by
+      | .ok (os, es) => .ok { db with orders := os, events := db.events ++ es,
+                                      noRefs := db.noRefs.filter (fun k => !ns.contains k) } := by
   unfold updateOrdersTx
   rw [updateOrdersLoop_ev]
   cases updateOrdersLoop (ns.zip ms) db.orders [] with
@@ -105,6 +127,13 @@ theorem refines_submitOrder (db : DB) (h : Coh db) (n : Key) (o : Ord) :
   cases lookup n db.orders with
   | some _ => exact ⟨rfl, h⟩
   | none => exact ⟨rfl, coh_direct h _ h.accN (keys_upsert_nodup h.ordN)⟩
+
+theorem refines_deleteOrder (db : DB) (h : Coh db) (n : Key) :
+    abs (step db (.deleteOrder n)).1 = (abs db).step (.deleteOrder n) ∧ Coh (step db (.deleteOrder n)).1 := by
+  simp only [step, deleteOrderTx, Spec.step, abs, ofVis, vis]
+  cases lookup n db.orders with
+  | none => exact ⟨rfl, h⟩
+  | some _ => exact ⟨rfl, coh_direct h _ h.accN (keys_erase_nodup h.ordN) _⟩
 
 theorem refines_updateAccount (db : DB) (h : Coh db) (k : Key) (m : List AMod) :
     abs (step db (.updateAccount k m)).1 = (abs db).step (.updateAccount k m) ∧
@@ -128,7 +157,7 @@ theorem refines_updateOrdersTx (db : DB) (h : Coh db) (ns : List Key) (ms : List
   | error e => exact ⟨rfl, h⟩
   | ok x =>
     obtain ⟨os, es⟩ := x
-    exact ⟨rfl, coh_direct h _ h.accN (updateOrdersLoop_nodup hl h.ordN)⟩
+    exact ⟨rfl, coh_direct h _ h.accN (updateOrdersLoop_nodup hl h.ordN) _⟩
 
 theorem refines_updateOrder (db : DB) (h : Coh db) (n : Key) (m : List OMod) :
     abs (step db (.updateOrder n m)).1 = (abs db).step (.updateOrder n m) ∧
@@ -159,7 +188,8 @@ theorem refines_stage (db : DB) (h : Coh db) (a : StageArgs) :
 theorem coh_complete {db : DB} (h : Coh db) {st : Staged} (hs : StagedOK st) :
     Coh { db with accounts := over st.accts db.accounts, orders := over st.orders db.orders,
                   pendingId := none, pendingAccts := none, pendingOrders := none, pendingSnap := none,
-                  snaps := db.snaps ++ [st.snap], index := upsert st.id (db.snaps.length + 1) db.index } := by
+                  snaps := db.snaps ++ [st.snap], index := upsert st.id (db.snaps.length + 1) db.index,
+                  noRefs := db.noRefs ++ (keys st.orders).filter (fun k => (lookup k db.orders).isNone) } := by
   refine ⟨keys_over_nodup h.accN, keys_over_nodup h.ordN, Or.inl ⟨rfl, rfl, rfl, rfl⟩, ?_⟩
   intro id seq hl
   simp only [] at hl
@@ -194,17 +224,27 @@ theorem refines_complete (db : DB) (h : Coh db) :
 
 theorem refines_spend (db : DB) (h : Coh db) :
     abs (step db .spend).1 = (abs db).step .spend ∧ Coh (step db .spend).1 := by
-  simp only [step, Spec.step, abs, spendPendingClause, pendingBatchSnapshot]
+  simp only [step, Spec.step, abs]
+  rw [spendPendingClause_eq]
   rcases h.pend with hn | ⟨st, hs, hp⟩
   · rw [hn.2.2.2]
     simp only [commit]
     rw [staged_of_noPending hn]; exact ⟨rfl, h⟩
   · rw [hp.2.2.2]
     simp only []
-    rw [markBatchComplete_pending hp hs.2.2.2.1]
-    simp only [commit]
     rw [staged_of_hasPending hp]
-    exact ⟨rfl, coh_complete h hs⟩
+    simp only []
+    cases hr : snapReadable db st.snap with
+    | false =>
+      have hr' : readable (vis db) st = false := hr
+      simp only [hr', Bool.false_eq_true, if_false, commit]
+      rw [staged_of_hasPending hp]; exact ⟨rfl, h⟩
+    | true =>
+      have hr' : readable (vis db) st = true := hr
+      simp only [hr', if_true]
+      rw [markBatchComplete_pending hp hs.2.2.2.1]
+      simp only [commit]
+      exact ⟨rfl, coh_complete h hs⟩
 
 theorem refines_discard (db : DB) (h : Coh db) :
     abs (step db .discard).1 = (abs db).step .discard ∧ Coh (step db .discard).1 :=
@@ -216,20 +256,24 @@ theorem reconnect_db (rpc : Rpc) (rm : Bool) (db : DB) :
       match db.pendingSnap with
       | some s =>
         (match rpc with
-         | .finalized t => if s.tx ≠ t ∧ rm = true then (commit db (deletePendingBatchTx db)).1 else db
+         | .finalized t =>
+           if snapReadable db s = true ∧ s.tx ≠ t ∧ rm = true then (commit db (deletePendingBatchTx db)).1 else db
          | _ => db)
       | none => db := by
   unfold reconnect pendingBatchSnapshot
   cases db.pendingSnap with
   | none => simp [checkPendingBatch]
   | some s =>
-    cases rpc with
-    | rpcErr b => cases b <;> simp [checkPendingBatch]
-    | malformed => simp [checkPendingBatch]
-    | finalized t =>
-      by_cases ht : s.tx = t
-      · simp [checkPendingBatch, ht]
-      · cases rm <;> simp [checkPendingBatch, ht]
+    cases hr : snapReadable db s with
+    | false => cases rpc <;> simp [checkPendingBatch, hr]
+    | true =>
+      cases rpc with
+      | rpcErr b => cases b <;> simp [checkPendingBatch, hr]
+      | malformed => simp [checkPendingBatch, hr]
+      | finalized t =>
+        by_cases ht : s.tx = t
+        · simp [checkPendingBatch, ht, hr]
+        · cases rm <;> simp [checkPendingBatch, ht, hr]
 
 theorem refines_reconnect (db : DB) (h : Coh db) (rpc : Rpc) (rm : Bool) :
     abs (step db (.reconnect rpc rm)).1 = (abs db).step (.reconnect rpc rm) ∧
@@ -241,27 +285,73 @@ theorem refines_reconnect (db : DB) (h : Coh db) (rpc : Rpc) (rm : Bool) :
     rw [staged_of_noPending hn]; exact ⟨rfl, h⟩
   · simp only [hp.2.2.2]
     rw [staged_of_hasPending hp]
+    have hrd : snapReadable db st.snap = readable (vis db) st := rfl
     have hdis : Coh (commit db (deletePendingBatchTx db)).1 := (refines_discard db h).2
     cases rpc with
     | rpcErr b => exact ⟨by simp [discards, staged_of_hasPending hp], h⟩
     | malformed => exact ⟨by simp [discards, staged_of_hasPending hp], h⟩
     | finalized t =>
-      by_cases hc : st.snap.tx ≠ t ∧ rm = true
-      · obtain ⟨hc1, hc2⟩ := hc
+      by_cases hc : snapReadable db st.snap = true ∧ st.snap.tx ≠ t ∧ rm = true
+      · obtain ⟨hc0, hc1, hc2⟩ := hc
         subst hc2
-        have hd : discards st (.finalized t) true = true := by simp [discards, hc1]
-        simp only [hc1, ne_eq, not_false_eq_true, and_self, if_true, hd]
+        have hd : (readable (vis db) st && discards st (.finalized t) true) = true := by
+          rw [← hrd, hc0]; simp [discards, hc1]
+        simp only [hc0, hc1, ne_eq, not_false_eq_true, and_self, if_true, hd]
         exact ⟨rfl, hdis⟩
       · simp only [hc, if_false]
         refine ⟨?_, h⟩
-        have : discards st (.finalized t) rm = false := by
-          simp only [discards]
-          by_cases ht : st.snap.tx = t
-          · simp [ht]
-          · cases rm
-            · simp
-            · exact absurd ⟨ht, rfl⟩ hc
+        have : (readable (vis db) st && discards st (.finalized t) rm) = false := by
+          rw [← hrd]
+          cases hr : snapReadable db st.snap with
+          | false => rfl
+          | true =>
+            simp only [discards, Bool.true_and]
+            by_cases ht : st.snap.tx = t
+            · simp [ht]
+            · cases rm
+              · simp
+              · exact absurd ⟨hr, ht, rfl⟩ hc
         simp [this, staged_of_hasPending hp]
+
+theorem refines_accountSpend (db : DB) (h : Coh db) (k : Key) (w : Witness) (tx ht : Nat) :
+    abs (step db (.accountSpend k w tx ht)).1 = (abs db).step (.accountSpend k w tx ht) ∧
+      Coh (step db (.accountSpend k w tx ht)).1 := by
+  simp only [step, handleAccountSpend, Spec.step, abs, vis]
+  cases hl : lookup k db.accounts with
+  | none => exact ⟨rfl, h⟩
+  | some a =>
+    cases w with
+    | unknown => exact ⟨rfl, h⟩
+    | expiry =>
+      have := refines_updateAccount db h k (closeMods tx ht)
+      simp only [step, Spec.step, abs, vis] at this
+      exact this
+    | multiSig =>
+      simp only []
+      rw [spendPendingClause_eq]
+      rcases h.pend with hn | ⟨st, hs, hp⟩
+      · rw [hn.2.2.2, staged_of_noPending hn]
+        simp only [commit]
+        have h2 := refines_updateAccount db h k (closeMods tx ht)
+        simp only [step, Spec.step, abs, vis, commit] at h2
+        rw [staged_of_noPending hn] at h2
+        exact h2
+      · rw [hp.2.2.2, staged_of_hasPending hp]
+        simp only []
+        cases hr : snapReadable db st.snap with
+        | false =>
+          have hr' : readable ⟨db.accounts, db.orders, db.snaps, db.index⟩ st = false := hr
+          simp only [hr', Bool.false_eq_true, if_false, commit]
+          rw [staged_of_hasPending hp]; exact ⟨rfl, h⟩
+        | true =>
+          have hr' : readable ⟨db.accounts, db.orders, db.snaps, db.index⟩ st = true := hr
+          simp only [hr', if_true]
+          rw [markBatchComplete_pending hp hs.2.2.2.1]
+          simp only [commit]
+          have c1 := coh_complete h hs
+          have h2 := refines_updateAccount _ c1 k (closeMods tx ht)
+          simp only [step, Spec.step, abs, vis, commit] at h2
+          exact h2
 
 /-- every operation of the database model refines the specification and preserves coherence -/
 theorem step_refines (db : DB) (h : Coh db) (op : Op) :
@@ -273,10 +363,12 @@ theorem step_refines (db : DB) (h : Coh db) (op : Op) :
   | complete => exact refines_complete db h
   | discard => exact refines_discard db h
   | updateOrder n m => exact refines_updateOrder db h n m
+  | deleteOrder n => exact refines_deleteOrder db h n
   | updateOrders ns ms => exact refines_updateOrders db h ns ms
   | updateAccount k m => exact refines_updateAccount db h k m
   | reopen => exact ⟨rfl, h⟩
   | spend => exact refines_spend db h
+  | accountSpend k w tx ht => exact refines_accountSpend db h k w tx ht
   | reconnect rpc rm => exact refines_reconnect db h rpc rm
 
 theorem run_refines (db : DB) (h : Coh db) (ops : List Op) :
